@@ -1,9 +1,16 @@
 (* T02 (extension, not a numbered property) — the TEXT of the equity export inside the model.
    Statements only; proofs in TkProofs.EquityText_proofs.
 
-   Model: TkModel.EquityText.print_equity md es — EquityExporter::write_export byte for byte, from the
-   exported transactions es (Equity.eq_txn, one per commodity: the result of Equity.equity) and the rendered
-   metadata items md (text lines per item; rendering not modelled).  Read by the character-level journal
+   Model: TkModel.EquityText.print_equity md warn es — EquityExporter::write_export byte for byte, from the
+   exported transactions es (Equity.eq_txn, one per commodity: the result of Equity.equity), the rendered
+   metadata items md (text lines per item; rendering not modelled) and the wording warn of the comment block
+   written between the metadata block and the first posting line when the selected balances of a commodity
+   already cancel (the texts after "   ; ", like the lines of a metadata item; today's five lines =
+   EquityText.default_warn_lines, T02_default_warn_wf).  WHEN that block is written is the model's decision (iff
+   the sum is zero, e_warn); its wording is an input because no property speaks about it: every theorem below
+   holds for ANY warn satisfying the predicate required of the metadata lines (warn_wf warn = md_wf [warn]:
+   lines without CR / LF), and T02_warn_irrelevant states that md and warn reach the loaded export through the
+   transaction comments only.  Read by the character-level journal
    grammar model of C06 (Journal.parse_journal / load_journal) this text yields exactly the syntax-level
    transactions that correspond to Equity.eq_raw_txn, the objects of C10's theorems; so C10_carry applies to
    the LOADED TEXT.  All stages are reached:
@@ -14,7 +21,7 @@
      stage 4  loading (semantic layer, sort)       T02_load_export
      stage 5  composition with C10                 T02_text_carries_balances, T02_export_wf,
                                                    T02_text_carries_balances_src
-   Hypothesis export_wf md es (TkSpec.EquityText_spec, decidable): metadata lines are lines; per transaction the
+   Hypothesis export_wf md warn es (TkSpec.EquityText_spec, decidable): metadata and warning lines are lines; per transaction the
    time stamp is shown at a whole-minute offset with a 4-digit year (Journal_spec.ts_ok; F13: T02_subminute_refuted),
    the uuid is a uuid text, the commodity is none or an identifier without white space (Journal_spec.comm_ok);
    per posting the account is a name of the
@@ -37,28 +44,28 @@ Proof. exact eq_post_line_roundtrip. Qed.
 Print Assumptions T02_posting_line.
 
 (* the lines written for one commodity are the lines of one transaction followed by an empty line ... *)
-Theorem T02_txn_lines : forall md e, eq_txn_lines md e = eq_body md e ++ [[]].
+Theorem T02_txn_lines : forall md warn e, eq_txn_lines md warn e = eq_body md warn e ++ [[]].
 Proof. exact eq_txn_lines_body. Qed.
 Print Assumptions T02_txn_lines.
 
 (* stage 2: ... and these lines parse to the header (time stamp and offset of the last transaction, no code,
    the description, no uuid/location/tags line, comments = metadata lines with their empty separator comments,
-   then the five warnings iff present) and the postings in order *)
-Theorem T02_chunk : forall cfg md e,
-  eq_txn_wf e = true -> parse_chunk cfg (eq_body md e) = Some (eq_ptxn md e).
+   then the warning lines warn iff the sum is zero) and the postings in order *)
+Theorem T02_chunk : forall cfg md warn e,
+  eq_txn_wf e = true -> parse_chunk cfg (eq_body md warn e) = Some (eq_ptxn md warn e).
 Proof. exact eq_chunk_roundtrip. Qed.
 Print Assumptions T02_chunk.
 
 (* stage 3: the text of a non-empty well-formed export is a journal of the grammar: one syntax-level
    transaction per exported commodity, in order, whatever the journal-zone setting *)
-Theorem T02_parse_export : forall cfg md es,
-  es <> [] -> export_wf md es = true ->
-  parse_journal cfg (print_equity md es) = Ok (map (eq_ptxn md) es).
+Theorem T02_parse_export : forall cfg md warn es,
+  es <> [] -> export_wf md warn es = true ->
+  parse_journal cfg (print_equity md warn es) = Ok (map (eq_ptxn md warn) es).
 Proof. exact parse_export. Qed.
 Print Assumptions T02_parse_export.
 
 (* the postings read from the text are the raw transaction of C10 (Equity.eq_raw_txn) *)
-Theorem T02_parsed_is_raw : forall md e, ptxn_raw (eq_ptxn md e) = eq_raw_txn e.
+Theorem T02_parsed_is_raw : forall md warn e, ptxn_raw (eq_ptxn md warn e) = eq_raw_txn e.
 Proof. exact eq_ptxn_raw. Qed.
 Print Assumptions T02_parsed_is_raw.
 
@@ -77,54 +84,75 @@ Proof. exact eq_desc_trim_wf. Qed.
 Print Assumptions T02_description_read_back.
 
 (* nothing at all is written for an empty balance, and the empty text is not a journal *)
-Theorem T02_empty_export : forall cfg md,
-  print_equity md [] = [] /\ parse_journal cfg [] = Err E_syntax.
+Theorem T02_empty_export : forall cfg md warn,
+  print_equity md warn [] = [] /\ parse_journal cfg [] = Err E_syntax.
 Proof. exact empty_export. Qed.
 Print Assumptions T02_empty_export.
 
 (* stage 4: when every exported transaction passes the semantic layer (C10_balanced) the text is accepted by
    the loader and yields the equity transactions in canonical order *)
-Theorem T02_load_export : forall cfg md es,
-  es <> [] -> export_wf md es = true ->
+Theorem T02_load_export : forall cfg md warn es,
+  es <> [] -> export_wf md warn es = true ->
   (forall e, In e es -> accept_txn (eq_raw_txn e) = Ok (map eq_posting (eq_all_posts e))) ->
-  load_journal cfg (print_equity md es) = Ok (sort_by jtxn_leb (map (eq_jtxn md) es)).
+  load_journal cfg (print_equity md warn es) = Ok (sort_by jtxn_leb (map (eq_jtxn md warn) es)).
 Proof. exact load_export. Qed.
 Print Assumptions T02_load_export.
 
 (* stage 5, the composed corollary: the equity export TEXT of a source, loaded as a journal, is accepted, and
    the own sums of the loaded transactions are the selected balances of the source at every (account,
    commodity); the equity account additionally holds minus the total of the commodity (Equity_spec.Carried) *)
-Theorem T02_text_carries_balances : forall cfg known eqa ras ts es md,
-  txns_wf ts -> equity known eqa ras ts = Some es -> es <> [] -> export_wf md es = true ->
-  exists jts, load_journal cfg (print_equity md es) = Ok jts /\ TextCarries eqa ras md ts es jts.
+Theorem T02_text_carries_balances : forall cfg known eqa ras ts es md warn,
+  txns_wf ts -> equity known eqa ras ts = Some es -> es <> [] -> export_wf md warn es = true ->
+  exists jts, load_journal cfg (print_equity md warn es) = Ok jts /\ TextCarries eqa ras md warn ts es jts.
 Proof. exact text_carries_balances. Qed.
 Print Assumptions T02_text_carries_balances.
 
 (* the export of a source as the loader produces it (valid names, whole-minute offsets, uuid texts), with a
    grammar-valid equity account, is well formed as soon as the written amounts lie in the decimal type *)
-Theorem T02_export_wf : forall known eqa ras ts es md,
+Theorem T02_export_wf : forall known eqa ras ts es md warn,
   txns_wf ts -> forallb src_txn_ok ts = true -> eq_acct_ok eqa = true ->
-  equity known eqa ras ts = Some es -> amounts_fit es = true -> md_wf md = true ->
-  export_wf md es = true.
+  equity known eqa ras ts = Some es -> amounts_fit es = true -> md_wf md = true -> warn_wf warn = true ->
+  export_wf md warn es = true.
 Proof. exact export_wf_of_source. Qed.
 Print Assumptions T02_export_wf.
 
-Theorem T02_text_carries_balances_src : forall cfg known eqa ras ts es md,
+Theorem T02_text_carries_balances_src : forall cfg known eqa ras ts es md warn,
   txns_wf ts -> forallb src_txn_ok ts = true -> eq_acct_ok eqa = true ->
-  equity known eqa ras ts = Some es -> es <> [] -> amounts_fit es = true -> md_wf md = true ->
-  exists jts, load_journal cfg (print_equity md es) = Ok jts /\ TextCarries eqa ras md ts es jts.
+  equity known eqa ras ts = Some es -> es <> [] -> amounts_fit es = true -> md_wf md = true -> warn_wf warn = true ->
+  exists jts, load_journal cfg (print_equity md warn es) = Ok jts /\ TextCarries eqa ras md warn ts es jts.
 Proof. exact text_carries_balances_src. Qed.
 Print Assumptions T02_text_carries_balances_src.
 
+(* the five warning lines the code writes today satisfy the predicate (so every theorem applies to today's text) *)
+Theorem T02_default_warn_wf : warn_wf default_warn_lines = true.
+Proof. exact default_warn_wf. Qed.
+Print Assumptions T02_default_warn_wf.
+
+(* the wording of the comments is immaterial: the export written with any two choices (md, warn), (md', warn')
+   of well-formed metadata and warning lines is accepted in both cases, and the loaded transactions are equal
+   up to ONE component, the transaction comments (h_comments of the header, which hold exactly
+   eq_comments md warn e): jt_no_comments keeps the time stamp, offset, code, description, uuid, location, tags
+   and every posting with its comment.  Same order as well (the canonical order does not read comments).  In
+   particular the postings the balance sees are the same *)
+Theorem T02_warn_irrelevant : forall cfg md warn md' warn' es,
+  es <> [] -> export_wf md warn es = true -> export_wf md' warn' es = true ->
+  (forall e, In e es -> accept_txn (eq_raw_txn e) = Ok (map eq_posting (eq_all_posts e))) ->
+  exists jts jts', load_journal cfg (print_equity md warn es) = Ok jts
+    /\ load_journal cfg (print_equity md' warn' es) = Ok jts'
+    /\ map jt_no_comments jts = map jt_no_comments jts'
+    /\ jtxns_bposts jts = jtxns_bposts jts'.
+Proof. exact warn_irrelevant. Qed.
+Print Assumptions T02_warn_irrelevant.
+
 (* the oracle evaluated by the check on the implementation's text is sound, and the model text satisfies its
    statement *)
-Theorem T02_oracle_sound : forall cfg md es text,
-  text_reads_as cfg md es text = true -> TextReadsAs cfg md es text.
+Theorem T02_oracle_sound : forall cfg md warn es text,
+  text_reads_as cfg md warn es text = true -> TextReadsAs cfg md warn es text.
 Proof. exact text_reads_as_sound. Qed.
 Print Assumptions T02_oracle_sound.
 
-Theorem T02_model_text_reads : forall cfg md es,
-  export_wf md es = true -> TextReadsAs cfg md es (print_equity md es).
+Theorem T02_model_text_reads : forall cfg md warn es,
+  export_wf md warn es = true -> TextReadsAs cfg md warn es (print_equity md warn es).
 Proof. exact print_equity_reads. Qed.
 Print Assumptions T02_model_text_reads.
 
@@ -134,7 +162,7 @@ Print Assumptions T02_model_text_reads.
    configuration with "a!b" is rejected at start-up: corpus/T02/04), which is eq_acct_ok above *)
 Theorem T02_eq_account_ok_insufficient :
   eq_account_ok t02_bad_eqa = true /\ eq_acct_ok t02_bad_eqa = false
-  /\ option_map (fun es => (amounts_fit es, parse_journal (mkCfg 0 0) (print_equity [] es)))
+  /\ option_map (fun es => (amounts_fit es, parse_journal (mkCfg 0 0) (print_equity [] default_warn_lines es)))
        (equity (fun _ => true) t02_bad_eqa (Some c10_ex_sel) t02_ex_ts) = Some (true, Err E_syntax).
 Proof. exact eq_account_ok_insufficient. Qed.
 Print Assumptions T02_eq_account_ok_insufficient.
@@ -142,13 +170,15 @@ Print Assumptions T02_eq_account_ok_insufficient.
 (* F13 on the equity export: without the whole-minute offset hypothesis the header is not read back *)
 Theorem T02_subminute_refuted :
   forallb (fun e => forallb eq_post_wf (eq_all_posts e)) t02_subminute_export = true
-  /\ parse_journal (mkCfg 0 0) (print_equity [] t02_subminute_export) = Err E_syntax.
+  /\ parse_journal (mkCfg 0 0) (print_equity [] default_warn_lines t02_subminute_export) = Err E_syntax.
 Proof. exact subminute_export_refuted. Qed.
 Print Assumptions T02_subminute_refuted.
 
-(* non-vacuity: C10's example journal with uuids in audit mode; the model's texts are the implementation's two
-   exports of it (selected side with balancing postings / everything with the warnings), metadata included;
-   the exports are well formed, and the first text loads to the equity transactions *)
+(* non-vacuity: C10's example journal with uuids in audit mode; the model's texts (warn = default_warn_lines) are
+   the implementation's two exports of it (selected side with balancing postings / everything with the
+   warnings), metadata included; the exports are well formed, and the first text loads to the equity
+   transactions; the second export written with another wording of the warning and no metadata lines is a
+   different text that loads to the same transactions up to the transaction comments *)
 Example T02_example :
   txns_wf t02_ex_ts /\ forallb src_txn_ok t02_ex_ts = true /\ eq_acct_ok c10_eo = true
   /\ t02_ex_obs t02_ex_md_sel (equity (fun _ => true) c10_eo (Some c10_ex_sel) t02_ex_ts)
@@ -158,7 +188,19 @@ Example T02_example :
 Proof. exact t02_example. Qed.
 Example T02_example_loaded :
   match equity (fun _ => true) c10_eo (Some c10_ex_sel) t02_ex_ts with
-  | Some es => load_journal (mkCfg 0 0) t02_ex_text_sel = Ok (sort_by jtxn_leb (map (eq_jtxn t02_ex_md_sel) es))
+  | Some es => load_journal (mkCfg 0 0) t02_ex_text_sel = Ok (sort_by jtxn_leb (map (eq_jtxn t02_ex_md_sel default_warn_lines) es))
   | None => False
   end.
 Proof. exact t02_example_loaded. Qed.
+Example T02_example_reworded :
+  warn_wf t02_ex_warn_alt = true
+  /\ match equity (fun _ => true) c10_eo None t02_ex_ts with
+     | Some es =>
+         export_wf [] t02_ex_warn_alt es = true
+         /\ list_eqb N.eqb (print_equity [] t02_ex_warn_alt es) t02_ex_text_all = false
+         /\ t02_ex_res_nc (load_journal (mkCfg 0 0) (print_equity [] t02_ex_warn_alt es))
+            = t02_ex_res_nc (load_journal (mkCfg 0 0) t02_ex_text_all)
+         /\ t02_ex_res_nc (load_journal (mkCfg 0 0) t02_ex_text_all) <> None
+     | None => False
+     end.
+Proof. exact t02_example_reworded. Qed.
